@@ -11,10 +11,13 @@
     ends the same way.  It is proved outside the class [Known_C12] ("a removed initialiser is effect free but may
     raise": a call of a function other than the total builtins, a division, an import), refuted inside it
     ([*_known_refuted], the known finding) and refuted for the code as it was before the two repairs ([*_nofix_refuted]).
-    Not covered: a source program that does not end (diverges, or leaves the interpreted fragment) — nothing is
-    claimed about its optimised version; reference-count correctness (C30's concern). *)
+    [opt_preserves_total]: behaviour is a partial function of the program (more fuel never changes an observable
+    result), and whenever the unoptimised program has an observable behaviour the optimised one has exactly that one.
+    Not covered: a source program that has no observable behaviour (diverges, or leaves the interpreted fragment) —
+    nothing is claimed about its optimised version; reference-count correctness (C30's concern). *)
 From Coq Require Import ZArith List Bool Arith.
-From ErgV Require Import gen.OptLevels Optimize.Model Optimize.Spec Optimize.ProofsPure Optimize.Proofs Optimize.ProofsWitness.
+From ErgV Require Import gen.OptLevels Optimize.Model Optimize.Spec Optimize.ProofsPure Optimize.Proofs Optimize.ProofsWitness
+                          Optimize.ProofsTotal.
 Import ListNotations.
 Open Scope Z_scope.
 
@@ -102,6 +105,18 @@ Theorem all_levels_preserve : forall refs level p p',
   (forall e, In e (removed_defs refs p) -> Known_C12 e = false) ->
   forall fuel b, behaviour fuel p = b -> observable b -> behaviour fuel p' = b.
 Proof. exact all_levels_preserve_lemma. Qed.
+
+(** Behaviour as a partial function: if the unoptimised program has an observable behaviour with fuel [n], the
+    optimised program has the same behaviour with every fuel >= n, and no other observable behaviour with any fuel. *)
+Theorem opt_preserves_total : forall refs level p p',
+  In level [0; 1; 2; 3] ->
+  optimize refs level p = Ok p' ->
+  oracle_sound refs p (match eliminate refs p with Ok q => q | Panic _ => p end) ->
+  (forall e, In e (removed_defs refs p) -> Known_C12 e = false) ->
+  forall n, observable (behaviour n p) ->
+    (forall m, (n <= m)%nat -> behaviour m p' = behaviour n p) /\
+    (forall m, observable (behaviour m p') -> behaviour m p' = behaviour n p).
+Proof. exact opt_preserves_total_lemma. Qed.
 
 Example all_levels_nonvacuous :
   forall level, In level [1; 2; 3] ->
